@@ -138,7 +138,7 @@ func (baseScn) ErrVariants(w *World, q *Req) []replyVariant { return nil }
 func (baseScn) ReplyWeight(w *World, q *Req) (int, bool)    { return 0, false }
 func (baseScn) MayStall(w *World, c *Conn) bool             { return true }
 func (baseScn) MayDrop(w *World, c *Conn) bool              { return true }
-func (baseScn) HoldClock(w *World) bool { return false }
+func (baseScn) HoldClock(w *World) bool                     { return false }
 func (baseScn) OnQuiesce(w *World)                          {}
 func (baseScn) AfterQuiesce(w *World)                       {}
 
